@@ -51,6 +51,14 @@ def main():
             results[p] = {'exit': rc, 'violations': len(viol), 'first': (what[0][:300] if what else ''), 'wall_s': round(time.time() - t0, 1),
                           'nfi': sum(1 for v in viol if 'no-failing-input-found' in v)}
             print('check %s: exit=%s violations=%d wall=%.0fs %s' % (p, rc, len(viol), time.time() - t0, what[0][:200] if what else out[-300:].replace('\n', ' | ')))
+        prev = os.path.join(VERIF, 'seeded', name, 'meta.json')
+        if not suite and os.path.exists(prev):
+            try:
+                pm = json.load(open(prev))
+                for k in ('suite', 'suite_ok'):
+                    if k in pm: meta[k] = pm[k]
+                meta['first_run_checks'] = pm.get('first_run_checks') or pm.get('checks')
+            except Exception: pass
         meta['checks'] = results
         meta['detected'] = any(r['exit'] == 1 and r['violations'] > 0 for r in results.values())
         valid = rc_with != 0 and rc_without == 0 and (not suite or meta.get('suite_ok'))
@@ -61,7 +69,7 @@ def main():
             for f in ('patch.diff', 'demo.py', 'notes.md'):
                 if os.path.exists(os.path.join(src, f)): shutil.copy(os.path.join(src, f), os.path.join(d, f))
             meta['what_i_ran'] = ['git apply patch.diff in a scratch worktree of /repo HEAD', 'demo.py with and without the change',
-                                  ('tools/baseline_check.py on the worktree (578 stable tests)' if suite else 'test suite: as reported by the author of the change (logs in notes.md)'),
+                                  ('tools/baseline_check.py on the worktree (578 stable tests): ' + str(meta.get('suite'))),
                                   'VERIF_REPO=<worktree> bin/check %s --tier quick' % ','.join([pid] + also)]
             try: meta['needs'] = open(os.path.join(src, 'notes.md')).read()[:1500]
             except Exception: pass
